@@ -15,3 +15,21 @@ Theorem C02_kafka_C02_terminates  :
   r_client (dissect T client server t) <> NoFuel /\ r_server (dissect T client server t) <> NoFuel.
 Proof. exact (kafka_C02_terminates ). Qed.
 
+
+(* the premises hold of the tables regenerated from the compiled dissector on this run *)
+Require Import V.gen.KafkaSchemas V.Kafka.KafkaImplTables.
+
+Theorem C02_kafka_C02_impl_tables_ok : tables_plain impl_tables /\ tables_arrays_ok impl_tables.
+Proof. exact (conj impl_tables_are_plain impl_tables_have_arrays_ok). Qed.
+
+Theorem C02_kafka_C02_impl_steps  :
+  forall client server t,
+  r_steps (dissect impl_tables client server t)
+  <= (KT impl_tables + ST impl_tables + 6) * (blen client + blen server).
+Proof. exact (kafka_C02_impl_steps ). Qed.
+
+Theorem C02_kafka_C02_impl_terminates  :
+  forall client server t,
+  r_client (dissect impl_tables client server t) <> NoFuel /\
+  r_server (dissect impl_tables client server t) <> NoFuel.
+Proof. exact (kafka_C02_impl_terminates ). Qed.
